@@ -544,3 +544,52 @@ VARIANTS["C12"] = [
     R("value-inline", MC, "        value: float = (top + 0.0) / bottom\n        if value > random.random():", "        if top / bottom > random.random():"),
     R("draw-on-left", MC, "if value > random.random():", "if random.random() < value:"),
 ]
+
+# ------------------------------------------------------------------------------------------- C15
+AE = "gcmpy/message_passing/equations/automated_equation.py"
+VARIANTS["C15"] = [
+    M("key-without-root", AE, "key: str = f\"{root}-{G.name}\"", "key: str = f\"{G.name}\"", "C15.2"),
+    M("cache-stores-phi-terms", AE, "                if nx.is_connected(g_test):\n                    edge_combinations_final.append(len(es))", "                if nx.is_connected(g_test):\n                    edge_combinations_final.append(len(es) * G.nodes[c[0]][\"u\"])", "C15.1"),
+    M("interface-factor-p", AE, "interface_edges *= (1 - p)", "interface_edges *= p", "C15.4"),
+    M("exponents-swapped", AE, "(pow(p, len(g.edges()) - n_edges) * pow(1 - p, n_edges))", "(pow(p, n_edges) * pow(1 - p, len(g.edges()) - n_edges))", "C15.4"),
+    M("get-us-includes-root", AE, "            if n == root:\n                continue\n", "", "C15.4"),
+    M("exclusion-update-dropped", AE, "            excluded: set = excluded | {j}\n", "", "C15.5"),
+    M("exclusion-in-place", AE, "            excluded: set = excluded | {j}\n", "            excluded.add(j)\n", "C15.5"),
+    M("singleton-degree", AE, "prob += pow(1 - p, len(list(G.neighbors(c[0]))))", "prob += pow(1 - p, len(c))", "C15.4"),
+    M("interface-not-removed", AE, "                    edges_to_remove.append(e)\n                    interface_edges *= (1 - p)", "                    interface_edges *= (1 - p)", "C15.4"),
+    M("isolated-not-removed", AE, "            g.remove_nodes_from([n for n in g.nodes() if len(list(g.neighbors(n))) == 0])\n", "", "C15.4"),
+    M("subset-sizes-short", AE, "for l in range(0, len(G.edges())+1):", "for l in range(0, len(G.edges())):", "C15.4"),
+    M("us-on-whole-motif", AE, "us = self.get_us(g, root)", "us = self.get_us(G, root)", "C15.4"),
+    M("phi-passed-to-cache", AE, "            for n_edges in self.get_edge_combinations(g, c):\n                prob += (\n                    (pow(p, len(g.edges()) - n_edges) * pow(1 - p, n_edges))",
+      "            for n_edges in self.get_edge_combinations(g, [p] + c)[:]:\n                prob += (\n                    (pow(p, len(g.edges()) - n_edges) * pow(1 - p, n_edges))", "C15.1"),
+    M("frontier-without-neighbours", AE, "new_possible: set = (possible | set(G.neighbors(j))) - excluded", "new_possible: set = possible - excluded", "C15.5"),
+    M("edge-key-without-component", AE, "key: str = f\"{c}-{G.name}\"", "key: str = f\"{len(c)}-{G.name}\"", "C15.2"),
+    M("connected-negated", AE, "                if nx.is_connected(g_test):", "                if not nx.is_connected(g_test):", "C15.4"),
+    R("key-tuple", AE, "        key: str = f\"{root}-{G.name}\"\n", "        key = (root, G.name)\n"),
+    R("pow-operators", AE, "(pow(p, len(g.edges()) - n_edges) * pow(1 - p, n_edges))", "(p ** (len(g.edges()) - n_edges) * (1 - p) ** n_edges)"),
+]
+
+# ------------------------------------------------------------------------------------------- C17
+MPG = "gcmpy/message_passing/message_passing.py"
+MPX = "gcmpy/message_passing/message_passing_mixin.py"
+VARIANTS["C17"] = [
+    M("phi-not-set", MPG, "        self._phi = phi\n\n        # initialise the model", "        # initialise the model", "C17.1"),
+    M("init-zero", MPG, "                self._H_tau[(k, motif_ID)] = 0.5", "                self._H_tau[(k, motif_ID)] = 0.0", "C17.2"),
+    M("final-done-test-removed", MPG, "                if motif_ID in done_motifs:\n                    continue\n\n                prod *= self._H_tau[(i, motif_ID)]", "                prod *= self._H_tau[(i, motif_ID)]", "C17.4"),
+    M("calc-done-test-removed", MPG, "                if motif_ID_l in done_motifs:\n                    continue\n\n", "", "C17.4"),
+    M("focal-skip-removed", MPG, "            if j == focal:\n                continue\n", "", "C17.4"),
+    M("one-minus-dropped", MPG, "return 1 - ((1.0 * outer_sum) / self._MPM._G.order())", "return (1.0 * outer_sum) / self._MPM._G.order()", "C17.6"),
+    M("divide-by-edges", MPG, "/ self._MPM._G.order())", "/ self._MPM._G.number_of_edges())", "C17.6"),
+    M("graph-name-without-focal", MPG, "H = nx.Graph(name=f\"{focal}-{self._MPM.get_motif_ID(label)}\")", "H = nx.Graph(name=f\"{self._MPM.get_motif_ID(label)}\")", "C17.5"),
+    M("only-i-updated", MPG, "                self.calculate_H_tau(j, label)\n", "", "C17.3"),
+    M("done-not-recorded", MPG, "                prod_j *= self._H_tau[(j, motif_ID_l)]\n                done_motifs.add(motif_ID_l)", "                prod_j *= self._H_tau[(j, motif_ID_l)]", "C17.4"),
+    M("own-motif-not-excluded", MPG, "            js_neighbours = set(js_neighbours) - set(vertices_in_motif)\n", "", "C17.4"),
+    M("message-wrong-key", MPG, "self._H_tau[(focal, motif_ID)] = self.resolve_equation(focal, label, prods)", "self._H_tau[(motif_ID, focal)] = self.resolve_equation(focal, label, prods)", "C17.5"),
+    M("id-parser-first-field", MPX, "return int(label.split('-')[-1])", "return int(label.split('-')[0])", "C17.7"),
+    M("stale-H-no-init", MPG, "        self._H_tau: dict = {}\n        for i, j in self._MPM._G.edges():\n            label: str = self._MPM.get_edge_cover_label(i, j)\n            motif_ID: str = self._MPM.get_motif_ID(label)\n\n            for k in self._MPM.get_vertices_in_motif(label):\n                self._H_tau[(k, motif_ID)] = 0.5\n", "", ""),
+    M("done-shared-across-members", MPG, "            prod_j = 1\n            done_motifs = set()\n            for l in js_neighbours:", "            prod_j = 1\n            for l in js_neighbours:", ""),
+    M("u-attribute-renamed", MPG, "        nx.set_node_attributes(H, prods, \"u\")\n        return self._AE", "        nx.set_node_attributes(H, prods, \"H\")\n        return self._AE", "C17.5"),
+    M("evaluator-replaced-per-query", MPG, "        self._phi = phi\n", "        self._phi = phi\n        self._iterations = self._iterations + 1\n", "C17.1"),
+    R("h-reset-removed-init-loop-remains", MPG, "        self._H_tau: dict = {}\n        for i, j in self._MPM._G.edges():", "        for i, j in self._MPM._G.edges():"),
+    R("order-number-of-nodes", MPG, "/ self._MPM._G.order())", "/ self._MPM._G.number_of_nodes())"),
+]
